@@ -4,7 +4,7 @@ from absint import Prover, Linearizer
 from lin import Lin, entails_eq
 from paths import explore
 from sym import fmt, walk
-from rules.common import Anchors, path_calls, ret_kind, arg_locs, arg_loc
+from rules.common import adt_base, Anchors, path_calls, ret_kind, arg_locs, arg_loc
 from rules.C07 import slice_parts
 from rules.streams import norm, is_call
 import rules.C07 as C07
@@ -275,7 +275,7 @@ def r08_4(ctx, A, pv, masked_fn, crc_fn):
                 rv = p.ret()
                 ctx.check(R, rv[0] == 'agg' and all(x == ('const', 0) for _, x in rv[2]), 'empty-state', 'the checksum of no bytes must be the zero state', fn=n)
     # (b) builder side
-    cw_mc = [f for f in lib.fn_list if f.impl and f.impl['self_ty'].startswith(A.cw) and not f.impl.get('trait_path') and f.local_ty(0) == 'u32']
+    cw_mc = [f for f in lib.fn_list if f.impl and adt_base(f.impl['self_ty']) == A.cw and not f.impl.get('trait_path') and f.local_ty(0) == 'u32']
     ok = False
     for f in cw_mc:
         for p in explore(f, max_visits=1):
@@ -300,12 +300,12 @@ def r08_4(ctx, A, pv, masked_fn, crc_fn):
             calls = path_calls(p)
             imc = [i for i, c in enumerate(calls) if c[2] == cw_mc[0].path]
             foot = [i for i, c in enumerate(calls) if c[2] in emits and
-                    not (lib.fns[c[2]].impl and (lib.fns[c[2]].impl['self_ty'].startswith(A.builder) or lib.fns[c[2]].impl['self_ty'].startswith(A.cw))) and
+                    not (lib.fns[c[2]].impl and (adt_base(lib.fns[c[2]].impl['self_ty']) == A.builder or adt_base(lib.fns[c[2]].impl['self_ty']) == A.cw)) and
                     any(l is not None and l[:2] == (1, A.b_wtr) for l in arg_locs(fin, c[4]))]
             good = len(imc) == 1 and len(foot) >= 2 and max(foot) < imc[0]
             ctx.check(R, good, 'checksum-after-footer', 'the checksum must be read after BOTH footer words went through the counting writer (footer writes at %s, checksum read at %s): otherwise the footer is not certified' % (foot, imc), fn=fin)
             # the trailing word is that value
-            trail = [c for c in calls[imc[0] + 1:] if c[2] in emits and not (lib.fns[c[2]].impl and lib.fns[c[2]].impl['self_ty'].startswith(A.cw))] if imc else []
+            trail = [c for c in calls[imc[0] + 1:] if c[2] in emits and not (lib.fns[c[2]].impl and adt_base(lib.fns[c[2]].impl['self_ty']) == A.cw)] if imc else []
             okw = len(trail) == 1 and any(norm(a) == norm(p.sym.call_expr_at((calls[imc[0]][0], 'T'))) for a in trail[0][3])
             ctx.check(R, okw, 'trailer-is-checksum', 'the trailing word written to the raw sink is not the checksum just read', fn=fin)
         if n_ok == 0:
